@@ -6,6 +6,7 @@ use std::io::Write;
 
 pub mod util;
 pub mod wire;
+pub mod bus;
 pub mod session;
 pub mod sessgen;
 mod c03;
@@ -15,6 +16,7 @@ mod c01;
 mod c02;
 mod c07;
 mod c13;
+mod c17;
 
 pub struct Opts {
     pub tier_thorough: bool,
@@ -60,6 +62,7 @@ fn main() {
         "c05" => (c05::gen, c05::exec),
         "c07" => (c07::gen, c07::exec),
         "c13" => (c13::gen, c13::exec),
+        "c17" => (c17::gen, c17::exec),
         _ => { eprintln!("unknown property {}", prop); std::process::exit(2); }
     };
     if let Some(path) = &o.replay {
